@@ -114,6 +114,7 @@ void sim_client_reset_escalate(int cid); /* a reset so far only visible to read/
 void sim_set_window(int cid, long window); /* -1 unlimited; 0 = peer stopped reading; opening from 0 raises EPOLLOUT */
 void sim_write_cap_once(int cid, long maxbytes); /* next writev on this conn accepts at most maxbytes (>=1) */
 void sim_fail_next(const char *call, int err, int cid_or_minus1); /* one-shot failure of the next matching call: accept, fcntl, setsockopt, getsockname, writev, read, write, ftruncate, timerfd_create, timerfd_settime, epoll_ctl, epoll_create, socket, bind, listen, open, mmap */
+void sim_fail_clear(const char *call); /* disarm injected failures of that call that did not fire */
 const struct bytebuf *sim_conn_output(int cid);
 bool sim_conn_accepted(int cid);
 bool sim_conn_closed_by_daemon(int cid);
